@@ -227,6 +227,9 @@ def use_lines(T, v):
     return []
 
 
+WRAPPED = set()
+
+
 def gen_programs(ctx, n):
     rng = ctx.rng
     out = []
@@ -253,6 +256,19 @@ def gen_programs(ctx, n):
             continue
         allow = rng.random() < 0.5
         bind = f"let x = {lit}.parse_json() as {ts};" if allow else f"let x: {ts} = {lit}.parse_json();"
+        if T[0] != "opt" and rng.random() < 0.25:
+            # the dynamic value sits in one field of an object literal (type `?any` through `->`), next to statically
+            # typed fields before and/or after it: the annotated let validates the whole initializer
+            wlit = G.hms_string('{"k": ' + text + '}')
+            if wlit is None:
+                continue
+            fields = [("a0", "int", "7"), ("z9", "bool", "true")]
+            fields.insert(rng.choice([0, 0, 1, 2]), ("p", "?" + ts, "s->k"))
+            allow = False
+            bind = (f"let s = {wlit}.parse_json() as {{ ? }}; "
+                    f"let y: {{ {', '.join(f'{k}: {t}' for k, t, _ in fields)} }} = new {{ {', '.join(f'{k}: {e}' for k, _, e in fields)} }}; "
+                    "let x = y.p.unwrap();")
+            WRAPPED.add(bind)
         body = ["fn main() {", "    try {", "        " + bind, "        println(x);"] + use_code(T, "x") + [
             "    } catch e {", '        println("caught: " + e.message);', "    }", "}"]
         out.append((allow, tree, T, "\n".join(body), text))
@@ -312,7 +328,10 @@ def check_programs(ctx, progs):
                     what = f"{be}: a non-convertible JSON value was let through: out={out[:200]!r}"
                 else:
                     msg = out[len("caught: "):].rstrip("\n")
-                    cls, key, path, _ = go_err_fields("ERR " + G_cast_class(msg) + " path=" + G.hexs(G_cast_path(msg)) + " msg=" + G.hexs(msg))
+                    cpath = G_cast_path(msg)
+                    if any(b in src for b in WRAPPED) and cpath.startswith(".p<option-inner>"):
+                        cpath = cpath[len(".p<option-inner>"):]
+                    cls, key, path, _ = go_err_fields("ERR " + G_cast_class(msg) + " path=" + G.hexs(cpath) + " msg=" + G.hexs(msg))
                     if (cls, key, path) not in errs:
                         what = f"{be}: the cast error names a path/class that does not offend: {msg[:200]!r} (model: {sorted(errs)[:3]})"
             if what:
